@@ -712,6 +712,7 @@ def replace(eq: str, term: str, replacement: str, rhs_only: tp.Optional[bool] = 
 
     eq_new = ""
     idx = eq.find(term)
+    consumed = False  # True once the scan has been restarted on the remainder of the equation
 
     # go through all appearances of term in eq
     while idx != -1:
@@ -719,11 +720,17 @@ def replace(eq: str, term: str, replacement: str, rhs_only: tp.Optional[bool] = 
         # get idx of sign that follows after term
         idx_follow_op = idx+len(term)
 
+        # character in front of this appearance; after a restart the remainder begins right behind the previous
+        # appearance of term, so position 0 is preceded by the last character of term (not by a token boundary)
+        if idx > 0:
+            prev_char = eq[idx-1]
+        else:
+            prev_char = term[-1] if consumed and term else ''
+
         # if it is an allowed sign, replace term, else not
         replaced = False
-        if ((idx_follow_op < len(eq) and eq[idx_follow_op] in allowed_follow_ops) and
-           (idx == 0 or eq[idx-1] in allowed_follow_ops)) or \
-                (idx_follow_op == len(eq) and eq[idx-1] in allowed_follow_ops):
+        if (idx_follow_op == len(eq) or eq[idx_follow_op] in allowed_follow_ops) and \
+                (prev_char == '' or prev_char in allowed_follow_ops):
             eq_part = eq[:idx]
             if (rhs_only and "=" in eq_part) or (lhs_only and "=" not in eq_part) or (not rhs_only and not lhs_only):
                 eq_new += f"{eq_part}{replacement}"
@@ -733,6 +740,7 @@ def replace(eq: str, term: str, replacement: str, rhs_only: tp.Optional[bool] = 
 
         # jump to next appearance of term in eq
         eq = eq[idx_follow_op:]
+        consumed = True
         idx = eq.find(term)
 
     # add rest of eq to new eq
